@@ -168,7 +168,7 @@ theorem sanitize_forall (P : Char → Prop) (lowered : Str)
         simp only [List.mem_append] at hca
         rcases hca with (h | h) | h
         · exact hconst c (s1 c h)
-        · exact toDigitsCore_forall P hhex _ _ _ (by simp) c h
+        · exact toDigits_forall P 16 (by decide) hhex _ c h
         · exact hconst c (s2 c h)
       · simp at hca
   have h2 : ∀ c ∈ sanDigit (sanLoop (sanReplace lowered)), P c :=
@@ -778,11 +778,544 @@ def LineSpec.refs (xs : List LineSpec) : List Str := xs.flatMap (fun x => x.2.2.
 
 def blankSpec : LineSpec := ([], [], [])
 def headSpecs (name : Str) : List LineSpec :=
-  [("# GBNF Grammar for OCTAVE schema: ".toList ++ name, [], []), blankSpec,
+  [("# GBNF Grammar for OCTAVE schema: ".toList ++ headerName name, [], []), blankSpec,
    ("ws ::= [ \\t\\n]*".toList, ["ws".toList], []), blankSpec]
 def tailSpecs : List LineSpec := [blankSpec, ("root ::= document".toList, ["root".toList], ["document".toList])]
 
 theorem blank_ok : LineOK blankSpec.1 blankSpec.2.1 blankSpec.2.2 := lineOK_of_check lineCheck_blank
 
+theorem assemble (name : Str) (xsF xsC xsD : List LineSpec)
+    (hF : ∀ x ∈ xsF, LineOK x.1 x.2.1 x.2.2) (hC : ∀ x ∈ xsC, LineOK x.1 x.2.1 x.2.2) (hD : ∀ x ∈ xsD, LineOK x.1 x.2.1 x.2.2)
+    (hnodup : (["ws".toList] ++ LineSpec.names xsF ++ (LineSpec.names xsC ++ LineSpec.names xsD ++ ["root".toList])).Nodup)
+    (hrefsF : ∀ r ∈ LineSpec.refs xsF, r = "ws".toList)
+    (hrefsC : ∀ r ∈ LineSpec.refs xsC, r ∈ ["ws".toList] ++ LineSpec.names xsF ++ LineSpec.names xsC)
+    (hrefsD : ∀ r ∈ LineSpec.refs xsD, r ∈ ["ws".toList] ++ LineSpec.names xsC ++ LineSpec.names xsD)
+    (hdoc : "document".toList ∈ LineSpec.names xsD) :
+    WellFormed true (List.intercalate ['\n']
+      ((headSpecs name ++ xsF ++ [blankSpec] ++ xsC ++ [blankSpec] ++ xsD ++ tailSpecs).map (·.1))) := by
+  have hnames : LineSpec.names (headSpecs name ++ xsF ++ [blankSpec] ++ xsC ++ [blankSpec] ++ xsD ++ tailSpecs) =
+      ["ws".toList] ++ LineSpec.names xsF ++ (LineSpec.names xsC ++ LineSpec.names xsD ++ ["root".toList]) := by
+    simp [LineSpec.names, headSpecs, tailSpecs, blankSpec, List.flatMap_append]
+  have hrefs : LineSpec.refs (headSpecs name ++ xsF ++ [blankSpec] ++ xsC ++ [blankSpec] ++ xsD ++ tailSpecs) =
+      LineSpec.refs xsF ++ LineSpec.refs xsC ++ LineSpec.refs xsD ++ ["document".toList] := by
+    simp [LineSpec.refs, headSpecs, tailSpecs, blankSpec, List.flatMap_append]
+  apply wellFormed_of_lines'
+  · simp [headSpecs]
+  · intro x hx
+    simp only [List.mem_append, List.mem_singleton] at hx
+    rcases hx with (((((h | h) | h) | h) | h) | h) | h
+    · simp only [headSpecs, List.mem_cons, List.not_mem_nil, or_false] at h
+      rcases h with h | h | h | h
+      · subst h; exact header_ok name
+      · subst h; exact blank_ok
+      · subst h; exact lineOK_of_check lineCheck_ws
+      · subst h; exact blank_ok
+    · exact hF x h
+    · subst h; exact blank_ok
+    · exact hC x h
+    · subst h; exact blank_ok
+    · exact hD x h
+    · simp only [tailSpecs, List.mem_cons, List.not_mem_nil, or_false] at h
+      rcases h with h | h
+      · subst h; exact blank_ok
+      · subst h; exact lineOK_of_check lineCheck_root
+  · show rootName ∈ LineSpec.names _
+    rw [hnames]; simp [rootName]
+  · intro r hr
+    show r ∈ LineSpec.names _
+    have hr' : r ∈ LineSpec.refs (headSpecs name ++ xsF ++ [blankSpec] ++ xsC ++ [blankSpec] ++ xsD ++ tailSpecs) := hr
+    rw [hrefs] at hr'
+    rw [hnames]
+    simp only [List.mem_append, List.mem_singleton] at hr' ⊢
+    rcases hr' with ((h | h) | h) | h
+    · left; left; exact hrefsF r h
+    · have := hrefsC r h
+      simp only [List.mem_append, List.mem_singleton] at this
+      rcases this with (h1 | h1) | h1
+      · left; left; exact h1
+      · left; right; exact h1
+      · right; left; left; exact h1
+    · have := hrefsD r h
+      simp only [List.mem_append, List.mem_singleton] at this
+      rcases this with (h1 | h1) | h1
+      · left; left; exact h1
+      · right; left; left; exact h1
+      · right; left; right; exact h1
+    · subst h; right; left; right; exact hdoc
+  · show (LineSpec.names _).Nodup
+    rw [hnames]; exact hnodup
+
+def contentSpecs (F : List Str) : List LineSpec :=
+  if F.isEmpty then [("content ::= [^\\n]*".toList, ["content".toList], [])]
+  else [("field ::= (".toList ++ List.intercalate " | ".toList F ++ ")".toList, ["field".toList], F.reverse),
+        ("content ::= (field ws)*".toList, ["content".toList], ["ws".toList, "field".toList])]
+
+def docSpecs (upper : Str) (envelope : Bool) : List LineSpec :=
+  if envelope then
+    [("envelope-start ::= \"===".toList ++ escapeLiteral upper ++ "===\"".toList, ["envelope-start".toList], []),
+     ("envelope-end ::= \"===END===\"".toList, ["envelope-end".toList], []), blankSpec,
+     ("meta-block ::= \"META:\" ws meta-content".toList, ["meta-block".toList], ["meta-content".toList, "ws".toList]),
+     ("meta-content ::= (meta-field ws)*".toList, ["meta-content".toList], ["ws".toList, "meta-field".toList]),
+     ("meta-field ::= [A-Z_]+ \"::\" ws [^\\n]+".toList, ["meta-field".toList], ["ws".toList]), blankSpec,
+     ("document ::= envelope-start ws meta-block ws content ws envelope-end".toList, ["document".toList],
+      ["envelope-end", "ws", "content", "ws", "meta-block", "ws", "envelope-start"].map String.toList)]
+  else [("document ::= content".toList, ["document".toList], ["content".toList])]
+
+theorem contentSpecs_ok (F : List Str) (hw : ∀ r ∈ F, r ≠ [] ∧ ∀ c ∈ r, isWordChar true c = true) :
+    ∀ x ∈ contentSpecs F, LineOK x.1 x.2.1 x.2.2 := by
+  intro x hx
+  unfold contentSpecs at hx
+  split at hx
+  · simp only [List.mem_singleton] at hx; subst hx; exact lineOK_of_check lineCheck_content0
+  · rename_i hne
+    simp only [List.mem_cons, List.not_mem_nil, or_false] at hx
+    rcases hx with h | h
+    · subst h; exact fieldRefs_ok F (by intro h; simp [h] at hne) hw
+    · subst h; exact lineOK_of_check lineCheck_content1
+
+theorem docSpecs_ok (upper : Str) (envelope : Bool) :
+    ∀ x ∈ docSpecs upper envelope, LineOK x.1 x.2.1 x.2.2 := by
+  intro x hx
+  unfold docSpecs at hx
+  cases envelope with
+  | false =>
+    simp only [Bool.false_eq_true, if_false, List.mem_singleton] at hx
+    subst hx; exact lineOK_of_check lineCheck_document
+  | true =>
+    simp only [if_true, List.mem_cons, List.not_mem_nil, or_false] at hx
+    rcases hx with h1 | h1 | h1 | h1 | h1 | h1 | h1 | h1
+    · subst h1; exact envelopeStart_ok upper
+    · subst h1; exact lineOK_of_check lineCheck_envEnd
+    · subst h1; exact blank_ok
+    · subst h1; exact lineOK_of_check lineCheck_metaBlock
+    · subst h1; exact lineOK_of_check lineCheck_metaContent
+    · subst h1; exact lineOK_of_check lineCheck_metaField
+    · subst h1; exact blank_ok
+    · subst h1; exact lineOK_of_check lineCheck_documentEnv
+
+/-- the text `compile_schema` returns, line by line -/
+theorem compileSchema_lines (name upper : Str) (fields : List Field) (envelope : Bool) (names : List Str)
+    (xsF : List LineSpec) (hn : assignNames (fields.map Field.baseName) [] = some names)
+    (hfl : fieldLines fields names = some (xsF.map (·.1))) :
+    compileSchema name upper fields envelope = some (List.intercalate ['\n']
+      ((headSpecs name ++ xsF ++ [blankSpec] ++ contentSpecs names ++ [blankSpec] ++
+        docSpecs upper envelope ++ tailSpecs).map (·.1))) := by
+  obtain ⟨h1, _, h3, h4, h5, h6, h7, h8, h9, h10, h11⟩ := gen_schema_templates
+  unfold compileSchema schemaLines contentLines documentLines
+  rw [hn]
+  simp only
+  rw [hfl, h1, h3, h4, h5, h6, h7, h8, h9, h10, h11]
+  have e : "\n".toList = ['\n'] := by decide
+  rw [e]
+  simp only [Option.map_some]
+  congr 2
+  cases envelope <;> cases hF : names.isEmpty <;>
+    simp [headSpecs, tailSpecs, blankSpec, contentSpecs, docSpecs, render, hF]
+
+theorem names_contentSpecs (F : List Str) :
+    LineSpec.names (contentSpecs F) = if F.isEmpty then ["content".toList] else ["field".toList, "content".toList] := by
+  unfold contentSpecs LineSpec.names
+  split <;> simp
+
+theorem refs_contentSpecs (F : List Str) :
+    LineSpec.refs (contentSpecs F) = if F.isEmpty then [] else F ++ ["field".toList, "ws".toList] := by
+  unfold contentSpecs LineSpec.refs
+  split <;> simp
+
+theorem names_docSpecs (upper : Str) (envelope : Bool) :
+    LineSpec.names (docSpecs upper envelope) =
+      if envelope then ["envelope-start", "envelope-end", "meta-block", "meta-content", "meta-field", "document"].map String.toList
+      else ["document".toList] := by
+  unfold docSpecs LineSpec.names
+  split <;> simp [blankSpec]
+
+theorem refs_docSpecs (upper : Str) (envelope : Bool) :
+    LineSpec.refs (docSpecs upper envelope) =
+      if envelope then ["ws", "meta-content", "meta-field", "ws", "ws", "envelope-start", "ws", "meta-block", "ws", "content", "ws",
+        "envelope-end"].map String.toList
+      else ["content".toList] := by
+  unfold docSpecs LineSpec.refs
+  split <;> simp [blankSpec]
+
+/-- **C12 (partial only w.r.t. the name alphabet).**  For every schema name, every list of fields — any field
+names (dots, slashes, hyphens, non-ASCII, quotes, backslashes, names equal to the grammar's own rule names,
+names that sanitise alike), any chains of the 13 constraint kinds plus unknown ones, arbitrary REGEX patterns —
+and **both envelope settings**, the text `compile_schema` returns is well-formed GBNF: it parses, defines
+`root`, defines every rule it references, defines no rule twice, has no unterminated literal or class and
+no empty alternative.  `SchemaOK` says only what the schema reader guarantees (an ENUM has a member, a REGEX
+pattern compiled under Python's `re`).
+
+*Partial*: the statement is for the lenient rule-name alphabet (`_` admitted).  Under llama.cpp's own
+alphabet `[a-zA-Z0-9-]` it is false whenever a rule name contains `_` (finding F23, `F23_strict_alphabet_witness`). -/
+theorem C12_wellformed_partial (name upper : Str) (fields : List Field) (envelope : Bool) (text : Str)
+    (hok : SchemaOK fields = true) (hc : compileSchema name upper fields envelope = some text) :
+    WellFormed true text := by
+  -- the rule names
+  have hbases : ∀ b ∈ fields.map Field.baseName, BaseName b := by
+    intro b hb
+    obtain ⟨f, _, hfb⟩ := List.mem_map.mp hb
+    subst hfb
+    exact baseName_sanitize f.lowered
+  cases hn : assignNames (fields.map Field.baseName) [] with
+  | none => simp [compileSchema, schemaLines, hn] at hc
+  | some names =>
+    obtain ⟨hnd, hgood, hlen⟩ := assignNames_spec _ [] names hbases (by simp) (by simp) hn
+    have hlen' : names.length = fields.length := by simpa using hlen
+    have hw : ∀ n ∈ names, n ≠ [] ∧ ∀ c ∈ n, isWordChar true c = true := fun n h => ⟨(hgood n h).1, (hgood n h).2.1⟩
+    obtain ⟨xsF, hfl, hallF, hnamesF, hrefsF⟩ := fieldLines_ok fields names hok hlen' hw
+    have htext := compileSchema_lines name upper fields envelope names xsF hn hfl
+    rw [hc] at htext
+    simp only [Option.some.injEq] at htext
+    rw [htext]
+    have hF : LineSpec.names xsF = names := hnamesF
+    apply assemble name xsF (contentSpecs names) (docSpecs upper envelope) hallF (contentSpecs_ok _ hw)
+      (docSpecs_ok upper envelope)
+    · -- no rule is defined twice
+      rw [hF, names_contentSpecs, names_docSpecs]
+      apply nodup_insert_middle _ _ _ hnd
+      · cases envelope <;> cases names.isEmpty <;> decide
+      · intro x hx hmem
+        refine (hgood x hx).2.2 ?_
+        have hsub : ∀ (b1 b2 : Bool), ∀ y ∈ ["ws".toList] ++ ((if b1 then ["content".toList] else ["field".toList, "content".toList]) ++
+            (if b2 then ["envelope-start", "envelope-end", "meta-block", "meta-content", "meta-field", "document"].map String.toList
+              else ["document".toList]) ++ ["root".toList]), y ∈ allStructural := by decide
+        exact hsub _ _ x hmem
+    · exact hrefsF
+    · -- references of the field / content rules
+      intro r hr
+      rw [refs_contentSpecs] at hr
+      rw [hF, names_contentSpecs]
+      split at hr
+      · simp at hr
+      · rename_i hne
+        simp only [hne, Bool.false_eq_true, if_false]
+        simp only [List.mem_append, List.mem_cons, List.not_mem_nil, or_false] at hr ⊢
+        rcases hr with h | h | h
+        · left; right; exact h
+        · right; left; exact h
+        · left; left; exact h
+    · -- references of the document rules
+      intro r hr
+      rw [refs_docSpecs] at hr
+      rw [names_contentSpecs, names_docSpecs]
+      cases envelope <;> cases names.isEmpty <;> revert r <;> decide
+    · rw [names_docSpecs]; cases envelope <;> decide
+
+/-! ## the executable verdict used by the driver is the specification -/
+
+theorem dupsOf_isEmpty_iff : ∀ (l : List Str), (dupsOf l).isEmpty = true ↔ l.Nodup := by
+  intro l
+  induction l with
+  | nil => simp [dupsOf]
+  | cons n r ih =>
+    simp only [dupsOf, List.nodup_cons]
+    by_cases h : r.contains n = true
+    · simp only [h, if_true, List.isEmpty_cons, Bool.false_eq_true, false_iff, not_and]
+      intro hn; exact absurd (by simpa [List.contains_iff_mem] using h) hn
+    · simp only [h, Bool.false_eq_true, if_false, ih]
+      constructor
+      · intro hr; exact ⟨by simpa [List.contains_iff_mem] using h, hr⟩
+      · intro hr; exact hr.2
+
+theorem wellFormedB_iff (len : Bool) (text : Str) : wellFormedB len text = true ↔ WellFormed len text := by
+  unfold wellFormedB WellFormed
+  cases hp : parse len text with
+  | none => simp
+  | some g =>
+    simp only [Grammar.wellFormedB, Bool.and_eq_true, List.all_eq_true, Option.some.injEq, exists_eq_left']
+    rw [dupsOf_isEmpty_iff]
+    simp [List.contains_iff_mem, and_assoc]
+
+/-! ## totality: the uniqueness loop terminates -/
+
+theorem length_le_of_nodup_subset : ∀ (xs l : List Str), xs.Nodup → (∀ x ∈ xs, x ∈ l) → xs.length ≤ l.length := by
+  intro xs
+  induction xs with
+  | nil => intro l _ _; simp
+  | cons a r ih =>
+    intro l hnd hsub
+    have ha : a ∈ l := hsub a (by simp)
+    have hnd' := List.nodup_cons.mp hnd
+    have h1 : ∀ x ∈ r, x ∈ l.erase a := by
+      intro x hx
+      have hxa : x ≠ a := fun h => hnd'.1 (h ▸ hx)
+      exact (List.mem_erase_of_ne hxa).mpr (hsub x (by simp [hx]))
+    have := ih (l.erase a) hnd'.2 h1
+    rw [List.length_erase_of_mem ha] at this
+    have hpos : 0 < l.length := List.length_pos_of_mem ha
+    simp only [List.length_cons]
+    omega
+
+theorem nodup_map_of_inj (f : Nat → Str) (hinj : ∀ a b, f a = f b → a = b) : ∀ (l : List Nat), l.Nodup → (l.map f).Nodup := by
+  intro l
+  induction l with
+  | nil => intro _; simp
+  | cons a r ih =>
+    intro h
+    have h' := List.nodup_cons.mp h
+    simp only [List.map_cons, List.nodup_cons]
+    refine ⟨?_, ih h'.2⟩
+    intro hm
+    obtain ⟨x, hx, hfx⟩ := List.mem_map.mp hm
+    have := hinj x a hfx
+    subst this
+    exact h'.1 hx
+
+theorem toDigits10_inj (a b : Nat) (h : Nat.toDigits 10 a = Nat.toDigits 10 b) : a = b := by
+  have ha := @Nat.ofDigitChars_toDigits 10 a (by decide) (by decide)
+  have hb := @Nat.ofDigitChars_toDigits 10 b (by decide) (by decide)
+  rw [h] at ha
+  exact ha.symm.trans hb
+
+/-- the i-th name the loop tries -/
+def candidateAt (base : Str) (start : Nat) : Nat → Str
+  | 0 => base
+  | i + 1 => uniqueCandidate base (start + i)
+
+theorem candidateAt_inj (base : Str) (start i j : Nat) (h : candidateAt base start i = candidateAt base start j) : i = j := by
+  cases i with
+  | zero =>
+    cases j with
+    | zero => rfl
+    | succ j =>
+      simp only [candidateAt, uniqueCandidate_eq] at h
+      have := congrArg List.length h
+      simp at this
+  | succ i =>
+    cases j with
+    | zero =>
+      simp only [candidateAt, uniqueCandidate_eq] at h
+      have := congrArg List.length h
+      simp at this
+    | succ j =>
+      simp only [candidateAt, uniqueCandidate_eq] at h
+      have h2 := List.append_cancel_left h
+      simp only [List.cons.injEq, true_and] at h2
+      have := toDigits10_inj _ _ h2
+      omega
+
+/-- if the loop gives up after `f` more iterations, every name it tried was taken -/
+theorem uniqueLoop_none (used : List Str) (base : Str) (start : Nat) : ∀ (f i : Nat),
+    uniqueLoop used base f (start + i) (candidateAt base start i) = none →
+    ∀ j, j ≤ f → nameTaken used (candidateAt base start (i + j)) = true := by
+  intro f
+  induction f with
+  | zero =>
+    intro i h j hj
+    have : j = 0 := by omega
+    subst this
+    simp only [uniqueLoop] at h
+    split at h
+    · rename_i ht; simpa using ht
+    · cases h
+  | succ f ih =>
+    intro i h j hj
+    simp only [uniqueLoop] at h
+    split at h
+    · rename_i ht
+      cases j with
+      | zero => simpa using ht
+      | succ j =>
+        have h' : uniqueLoop used base f (start + (i + 1)) (candidateAt base start (i + 1)) = none := by
+          simpa [candidateAt, Nat.add_assoc] using h
+        have := ih (i + 1) h' j (by omega)
+        simpa [Nat.add_assoc, Nat.add_comm 1 j] using this
+    · cases h
+
+theorem uniqueName_total (used : List Str) (base : Str) : ∃ n, uniqueName used base = some n := by
+  cases h : uniqueName used base with
+  | some n => exact ⟨n, rfl⟩
+  | none =>
+    exfalso
+    unfold uniqueName at h
+    have h0 : uniqueLoop used base (used.length + Gen.schemaReservedRuleNames.length + 1) (Gen.schemaUniqueSuffixStart + 0)
+        (candidateAt base Gen.schemaUniqueSuffixStart 0) = none := by simpa [candidateAt] using h
+    have hall := uniqueLoop_none used base Gen.schemaUniqueSuffixStart _ 0 h0
+    -- F+1 distinct candidates inside a list of length F
+    let F := used.length + Gen.schemaReservedRuleNames.length + 1
+    let cands := (List.range (F + 1)).map (candidateAt base Gen.schemaUniqueSuffixStart)
+    have hnd : cands.Nodup :=
+      nodup_map_of_inj _ (fun a b hab => candidateAt_inj base _ a b hab) _ List.nodup_range
+    have hsub : ∀ x ∈ cands, x ∈ used ++ Gen.schemaReservedRuleNames := by
+      intro x hx
+      obtain ⟨i, hi, hxi⟩ := List.mem_map.mp hx
+      have hi' : i ≤ F := by have := List.mem_range.mp hi; omega
+      have := hall i hi'
+      simp only [Nat.zero_add] at this
+      rw [hxi] at this
+      simp only [nameTaken, Bool.or_eq_true, List.contains_iff_mem] at this
+      exact List.mem_append.mpr this
+    have := length_le_of_nodup_subset cands _ hnd hsub
+    simp only [cands, List.length_map, List.length_range, List.length_append, F] at this
+    omega
+
+theorem assignNames_total : ∀ (bases used : List Str), ∃ names, assignNames bases used = some names := by
+  intro bases
+  induction bases with
+  | nil => intro used; exact ⟨used, rfl⟩
+  | cons b r ih =>
+    intro used
+    obtain ⟨n, hn⟩ := uniqueName_total used b
+    obtain ⟨names, hnames⟩ := ih (used ++ [n])
+    exact ⟨names, by simp [assignNames, hn, hnames]⟩
+
+theorem assignNames_length : ∀ (bases used names : List Str), assignNames bases used = some names →
+    names.length = used.length + bases.length := by
+  intro bases
+  induction bases with
+  | nil => intro used names h; simp [assignNames] at h; subst h; simp
+  | cons b r ih =>
+    intro used names h
+    simp only [assignNames] at h
+    split at h
+    · have := ih _ _ h; simp at this ⊢; omega
+    · cases h
+
+theorem compileConstraint_total (c : Constraint) : ∃ frag, compileConstraint c = some frag := by
+  cases c <;> simp [compileConstraint, gen_dispatch, lookupMethod, Constraint.kind, runMethod]
+
+theorem fieldLines_total : ∀ (fields : List Field) (names : List Str), names.length = fields.length →
+    ∃ ls, fieldLines fields names = some ls := by
+  intro fields
+  induction fields with
+  | nil => intro names _; exact ⟨[], by simp [fieldLines]⟩
+  | cons f r ih =>
+    intro names hlen
+    cases names with
+    | nil => simp at hlen
+    | cons n ns =>
+      obtain ⟨ls, hls⟩ := ih ns (by simpa using hlen)
+      have hp : ∃ pat, fieldPattern f = some pat := by
+        unfold fieldPattern
+        cases f.chain with
+        | none => exact ⟨_, rfl⟩
+        | some cs =>
+          simp only
+          unfold compileChain
+          cases deciding cs with
+          | none => exact ⟨_, rfl⟩
+          | some c => exact compileConstraint_total c
+      obtain ⟨pat, hpat⟩ := hp
+      exact ⟨render Gen.schemaFieldRuleTpl [n, escapeLiteral f.name, pat] :: ls, by simp [fieldLines, fieldLine, hpat, hls]⟩
+
+/-- **C12_compile_total.**  `compile_schema` returns a text for every schema: no constraint object makes a
+`_compile_*` method raise (the dispatch sends each class to the method that reads its own attributes) and
+the rule-name uniqueness loop terminates (pigeonhole over the candidates `base`, `base-2`, `base-3`, …). -/
+theorem C12_compile_total (name upper : Str) (fields : List Field) (envelope : Bool) :
+    ∃ text, compileSchema name upper fields envelope = some text := by
+  obtain ⟨names, hn⟩ := assignNames_total (fields.map Field.baseName) []
+  have hlen := assignNames_length _ _ _ hn
+  obtain ⟨ls, hls⟩ := fieldLines_total fields names (by simpa using hlen)
+  simp [compileSchema, schemaLines, hn, hls]
+
+/-- … hence: every schema the reader can deliver compiles to a well-formed grammar. -/
+theorem C12_wellformed_total_partial (name upper : Str) (fields : List Field) (envelope : Bool)
+    (hok : SchemaOK fields = true) :
+    ∃ text, compileSchema name upper fields envelope = some text ∧ WellFormed true text := by
+  obtain ⟨text, ht⟩ := C12_compile_total name upper fields envelope
+  exact ⟨text, ht, C12_wellformed_partial name upper fields envelope text hok ht⟩
+
+/-! ## the META.CONTRACT route -/
+
+/-- **C12_contract_route.**  `compile_gbnf_from_meta` (CONTRACT given as the parser's token list) is
+`compile_schema` with envelope of the schema whose fields are rebuilt from the tokens
+(`_reconstruct_field_specs_from_tokens`, `parse_contract_field`, dict insertion) — so
+`C12_wellformed_partial` applies to it verbatim. -/
+theorem C12_contract_route (env : Env) (type upper : Str) (toks : List CTok) (fs : List Field)
+    (h : contractFields env (reconstruct toks) [] = some fs) :
+    compileMetaTokens env type upper toks = some (compileSchema type upper fs true) := by
+  simp [compileMetaTokens, compileMeta, h]
+
+theorem C12_contract_wellformed_partial (env : Env) (type upper : Str) (toks : List CTok) (fs : List Field)
+    (h : contractFields env (reconstruct toks) [] = some fs) (hok : SchemaOK fs = true) :
+    ∃ text, compileMetaTokens env type upper toks = some (some text) ∧ WellFormed true text := by
+  obtain ⟨text, ht, hwf⟩ := C12_wellformed_total_partial type upper fs true hok
+  exact ⟨text, by rw [C12_contract_route env type upper toks fs h, ht], hwf⟩
+
+/-- the fields dict never holds a name twice: collisions (F21) are between *different* field names -/
+theorem dictSet_names_nodup (f : Field) : ∀ (l : List Field), (l.map (·.name)).Nodup → ((dictSet f l).map (·.name)).Nodup := by
+  intro l
+  induction l with
+  | nil => intro _; simp [dictSet]
+  | cons g r ih =>
+    intro h
+    simp only [dictSet]
+    split
+    · rename_i heq
+      have : g.name = f.name := by simpa using heq
+      simpa [this] using h
+    · rename_i hne
+      have hne' : g.name ≠ f.name := by simpa using hne
+      simp only [List.map_cons, List.nodup_cons] at h ⊢
+      refine ⟨?_, ih h.2⟩
+      intro hmem
+      obtain ⟨x, hx, hxn⟩ := List.mem_map.mp hmem
+      have : ∀ (l : List Field) (x : Field), x ∈ dictSet f l → x = f ∨ x ∈ l := by
+        intro l
+        induction l with
+        | nil => intro x hx; simp [dictSet] at hx; exact Or.inl hx
+        | cons a t iht =>
+          intro x hx
+          simp only [dictSet] at hx
+          split at hx
+          · rcases List.mem_cons.mp hx with h1 | h1
+            · exact Or.inl h1
+            · exact Or.inr (by simp [h1])
+          · rcases List.mem_cons.mp hx with h1 | h1
+            · exact Or.inr (by simp [h1])
+            · rcases iht x h1 with h2 | h2
+              · exact Or.inl h2
+              · exact Or.inr (by simp [h2])
+      rcases this r x hx with h1 | h1
+      · subst h1; exact hne' hxn.symm
+      · exact h.1 (List.mem_map.mpr ⟨x, h1, hxn⟩)
+
+/-! ## non-vacuity and regression examples -/
+
+def exampleFields : List Field :=
+  [⟨"STATUS".toList, "status".toList, some [.req, .enum ["ACTIVE".toList, "PAUSED".toList]]⟩,
+   ⟨"A.B".toList, "a.b".toList, some [.opt, .regex "^[a-z]+$".toList]⟩,
+   ⟨"A_DOT_B".toList, "a_dot_b".toList, some [.regex "^abc$".toList]⟩,
+   ⟨"CONTENT".toList, "content".toList, some [.const (.bool true)]⟩,
+   ⟨"a\"b\\c".toList, "a\"b\\c".toList, some [.const (.other "a\"b\\c".toList)]⟩,
+   ⟨"WHEN".toList, "when".toList, some [.iso8601]⟩, ⟨"N".toList, "n".toList, some [.type "NUMBER".toList]⟩,
+   ⟨"X".toList, "x".toList, none⟩]
+
+example : SchemaOK exampleFields = true := by decide
+example : (compileSchema "Session \"Log\"\n".toList "SESSION \"LOG\"\n".toList exampleFields true).map (wellFormedB true) = some true := by
+  decide +kernel
+example : (compileSchema "S".toList "S".toList [] false).map (wellFormedB true) = some true := by decide +kernel
+example : assignNames ["a_dot_b".toList, "a_dot_b".toList, "content".toList, "a_dot_b".toList] [] =
+    some ["a_dot_b".toList, "a_dot_b-2".toList, "content-2".toList, "a_dot_b-3".toList] := by decide +kernel
+
+/-- the witnesses of the fixed findings F20 F21 F22 C12N1 C12N2 now compile to well-formed grammars -/
+theorem fixed_findings_regression :
+    (compileSchema "S".toList "S".toList [⟨"CONTENT".toList, "content".toList, some [.req]⟩] false).map (wellFormedB true) = some true ∧
+    (compileSchema "S".toList "S".toList
+      [⟨"A.B".toList, "a.b".toList, some [.req]⟩, ⟨"A_DOT_B".toList, "a_dot_b".toList, some [.opt]⟩] false).map (wellFormedB true) = some true ∧
+    (compileSchema "S".toList "S".toList [⟨"P".toList, "p".toList, some [.regex "^abc$".toList]⟩] false).map (wellFormedB true) = some true ∧
+    (compileSchema "S".toList "S".toList [⟨"\"a\\b\"".toList, "\"a\\b\"".toList, some [.req]⟩] true).map (wellFormedB true) = some true ∧
+    (compileSchema "a\"b".toList "A\"B".toList [⟨"STATUS".toList, "status".toList, some [.req]⟩] true).map (wellFormedB true) = some true ∧
+    (compileSchema "a\nb".toList "A\nB".toList [⟨"STATUS".toList, "status".toList, some [.req]⟩] false).map (wellFormedB true) = some true := by
+  decide +kernel
+
+/-! ## negative theorem: the strict alphabet (F23) -/
+
+def illFormed (len : Bool) (o : Option Str) : Prop := ∃ text, o = some text ∧ ¬ WellFormed len text
+
+theorem illFormed_of_B {len : Bool} {o : Option Str} (h : o.map (wellFormedB len) = some false) : illFormed len o := by
+  cases o with
+  | none => simp at h
+  | some t =>
+    refine ⟨t, rfl, ?_⟩
+    rw [← wellFormedB_iff]
+    simpa using h
+
+/-- **F23**: under llama.cpp's own name alphabet `[a-zA-Z0-9-]` the grammar of a schema with a field
+`OPTIONAL_FIELD` (rule `optional_field`) does not parse, although it is well-formed when `_` is admitted. -/
+theorem F23_strict_alphabet_witness :
+    illFormed false (compileSchema "S".toList "S".toList [⟨"OPTIONAL_FIELD".toList, "optional_field".toList, some [.opt]⟩] false) ∧
+    (compileSchema "S".toList "S".toList [⟨"OPTIONAL_FIELD".toList, "optional_field".toList, some [.opt]⟩] false).map (wellFormedB true) = some true :=
+  ⟨illFormed_of_B (by decide +kernel), by decide +kernel⟩
 
 end Octave.C12
